@@ -1,7 +1,7 @@
 (* C11 -- intersection results lie on both operands, none are missed, operands swap.
    Property theorems only (proved in proofs/C11_inter2d.v, C11_inter3d.v) about the
    definitions generated from intersection2d.py / intersection3d.py. *)
-From LBG Require Import Base QGeom G0_vec G1_shapes G2_inter C11_inter2d C12_closest C11_inter3d.
+From LBG Require Import Base QGeom G0_vec G1_shapes G2_inter S_sortkeys C11_inter2d C12_closest C11_inter3d C11_sortkey.
 Open Scope Q_scope.
 
 Theorem C11_seg_seg_sound : forall a b p, intersect_line2d_seg_seg a b = Some p ->
@@ -128,6 +128,25 @@ Theorem C11_line_sphere_two_points_on_the_sphere : forall qsqrt l s,
   sqd3 (on3u l u1) (sp_c s) == sp_r s * sp_r s /\ sqd3 (on3u l u2) (sp_c s) == sp_r s * sp_r s.
 Proof. exact line_sphere_two_points_on_sphere. Qed.
 Print Assumptions C11_line_sphere_two_points_on_the_sphere.
+
+(* Face3D.intersect_plane pairs the crossings of the cut line with the face outline after sorting them by the generated key: along the
+   line p + t v the key is strictly increasing in t (for every direction of the line in the plane's axes, also along its y axis), ties
+   only at equal parameters, and the direction in the key is the direction of the ray whose crossings are sorted *)
+Theorem C11_face_plane_crossings_sorted_along_the_cut_line : forall px py vx vy t1 t2,
+  ~ (vx == 0 /\ vy == 0) ->
+  (t1 < t2 <-> Face3D_intersect_plane_key vx vy (px + t1 * vx) (py + t1 * vy) < Face3D_intersect_plane_key vx vy (px + t2 * vx) (py + t2 * vy)).
+Proof. exact key_orders_crossings_along_the_line. Qed.
+Print Assumptions C11_face_plane_crossings_sorted_along_the_cut_line.
+
+Theorem C11_face_plane_sort_key_has_no_ties : forall px py vx vy t1 t2,
+  ~ (vx == 0 /\ vy == 0) ->
+  Face3D_intersect_plane_key vx vy (px + t1 * vx) (py + t1 * vy) == Face3D_intersect_plane_key vx vy (px + t2 * vx) (py + t2 * vy) -> t1 == t2.
+Proof. exact key_ties_only_at_equal_parameters. Qed.
+Print Assumptions C11_face_plane_sort_key_has_no_ties.
+
+Theorem C11_face_plane_sort_key_direction : Face3D_intersect_plane_key_dir_is_ray_dir = true.
+Proof. exact key_direction_is_the_ray_direction. Qed.
+Print Assumptions C11_face_plane_sort_key_direction.
 
 Example C11_nonvacuous :
   let a := mkLR2 (mkV2 0 0) (mkV2 2 2) in let b := mkLR2 (mkV2 0 2) (mkV2 2 (-2)) in
